@@ -539,7 +539,8 @@ SPEC = PropSpec(
                  "value, raw value and class is compared with the checker's independent reference (bit strings, struct, "
                  "its own calibration formulas); undefined packets are skipped or reported in their stream position; "
                  "headers-only mode yields the raw packets. The value-level claim for all documents is the conjunction "
-                 "of C03-C08/C14, each decided for its own part."),
+                 "of C03-C08/C14, each decided for its own part."
+                 " R1.e2: a second document (two sibling containers that both match, (A or B) and (C or D) criteria, a context calibrator keyed on the parameter's own raw value incl. 0, a step spline queried at its last point, the XTCE 1.1 spelling twosCompliment, a length lookup whose first entry is only partly satisfied) decoded for five packets with and without error reporting."),
     rule_doc="R1.1 per registry row / listed class; R1.2 per concrete class; R1.e per packet of the stream x reporting option",
     assumptions=["struct (IEEE-754), Python codecs", "the model of lxml used to load the document (spv/xmlmodel.py)"],
     mutants=mutants,
